@@ -711,4 +711,119 @@ theorem deFloat64_eq (p : Parts) (wf : WF p) (hlen : (p.int ++ p.frac.getD []).l
       rw [hfit en eds hexp]
       simp
 
+/-! ## binary32 targets -/
+
+/-- the common normal form of both sides for an `f32` target: the pattern is handed on as the (exactly) widened `f64` -/
+def finish32 (neg : Bool) (R : Nat) : NRes :=
+  if R < b32.infBits then .f64 (F32.toF64 (UInt32.ofNat (if neg then b32.signBit + R else R))) else .outOfRange
+
+theorem infBits32 : b32.infBits = 0x7f800000 := by decide
+theorem signBit32 : b32.signBit = 2 ^ 31 := by decide
+
+/-- `(x as f64)` of the sign-flipped pattern is the sign-flipped `(x as f64)` -/
+theorem toF64_neg (R : Nat) (hR : R < b32.infBits) :
+    SJ.Spec.Ieee.F64.neg (F32.toF64 (UInt32.ofNat R)) = F32.toF64 (UInt32.ofNat (b32.signBit + R)) := by
+  have hi := infBits32
+  have hs := signBit32
+  have t1 : (UInt32.ofNat R).toNat = R := by rw [UInt32.toNat_ofNat']; exact Nat.mod_eq_of_lt (by omega)
+  have t2 : (UInt32.ofNat (b32.signBit + R)).toNat = 2 ^ 31 + R := by
+    rw [UInt32.toNat_ofNat', hs]; exact Nat.mod_eq_of_lt (by omega)
+  have a1 : F32.absBits (UInt32.ofNat R) = R := by unfold F32.absBits; rw [t1]; exact Nat.mod_eq_of_lt (by omega)
+  have a2 : F32.absBits (UInt32.ofNat (b32.signBit + R)) = R := by
+    unfold F32.absBits; rw [t2]; omega
+  have n1 : F32.isNeg (UInt32.ofNat R) = false := by
+    unfold F32.isNeg; rw [t1, Nat.div_eq_of_lt (by omega)]; rfl
+  have n2 : F32.isNeg (UInt32.ofNat (b32.signBit + R)) = true := by
+    unfold F32.isNeg; rw [t2]
+    have : (2 ^ 31 + R) / 2 ^ 31 = 1 := by omega
+    rw [this]; rfl
+  have i1 : F32.isInf (UInt32.ofNat R) = false := by unfold F32.isInf; rw [a1]; simp; omega
+  have i2 : F32.isInf (UInt32.ofNat (b32.signBit + R)) = false := by unfold F32.isInf; rw [a2]; simp; omega
+  unfold F32.toF64 F32.mag
+  simp only [i1, i2, n1, n2, a1, a2, Bool.false_eq_true, if_false]
+  -- both roundings through the bridge
+  have hd : 0 < 2 ^ 149 := pow_pos' _
+  rw [SJ.Proofs.LexBridge.roundNE64_bridge false _ _ hd, SJ.Proofs.LexBridge.roundNE64_bridge true _ _ hd]
+  unfold roundBits
+  generalize roundMag b64 (magOfBits b32 R * 2 ^ b64.qexp) (2 ^ 149) = r
+  simp only []
+  by_cases hr : r < b64.infBits
+  · simp only [hr, if_true, Bool.false_eq_true, if_false, Option.map_some, Option.getD_some]
+    exact neg_ofNat r (by have := infBits64_lt; omega)
+  · simp only [hr, if_false, Option.map_none, Option.getD_none]
+    decide
+
+theorem finishFloat32 (positive : Bool) (R : Nat) :
+    finishFloat true positive (clampInf b32 R) = finish32 (!positive) R := by
+  have h := fcok32
+  unfold finishFloat finish32
+  have hfc : fc true = f32Consts := rfl
+  rw [hfc, isInf_iff h _ (clampInf_le _ _)]
+  by_cases hR : R < b32.infBits
+  · have hc : clampInf b32 R = R := by unfold clampInf; rw [if_pos hR]
+    rw [hc, if_pos hR]
+    have hne : ¬ (R = b32.infBits) := by omega
+    simp only [hne, decide_false, Bool.false_eq_true, if_false, if_true]
+    cases positive
+    · simp only [Bool.not_false, if_true, Bool.false_eq_true, if_false]
+      rw [toF64_neg R hR]
+    · simp
+  · have hc : clampInf b32 R = b32.infBits := by unfold clampInf; rw [if_neg hR]
+    rw [hc, if_neg hR]
+    simp
+
+theorem roundBits_eq (F : Fmt) (neg : Bool) (n d : Nat) :
+    roundBits F neg n d =
+      if roundMag F (n * 2 ^ F.qexp) d < F.infBits then
+        some (if neg then F.signBit + roundMag F (n * 2 ^ F.qexp) d else roundMag F (n * 2 ^ F.qexp) d)
+      else none := rfl
+
+/-- what `Model.Num.exact` says, in terms of the rounding `R` of the decimal (any format) -/
+theorem exact_cases {c : FC} {F : Fmt} (h : FCok c F) (p : Parts) (hN : litN p ≠ 0) :
+    (exact p = .huge ∧ F.infBits ≤ roundMag F (dNum F (litN p) (litE p)) (dDen (litE p))) ∨
+    (exact p = .tiny ∧ roundMag F (dNum F (litN p) (litE p)) (dDen (litE p)) = 0) ∨
+    (∃ n d, exact p = .rat n d ∧ 0 < d ∧
+      roundMag F (n * 2 ^ F.qexp) d = roundMag F (dNum F (litN p) (litE p)) (dDen (litE p))) := by
+  have hNpos : 0 < litN p := Nat.pos_of_ne_zero hN
+  obtain ⟨db1, db2⟩ := digits_bounds (litN p) hNpos
+  have hLpos : 1 ≤ (toString (litN p)).length := by
+    have e : toString (litN p) = (litN p).repr := rfl
+    rw [e]; exact @Nat.length_repr_pos (litN p)
+  rw [exact_eq]
+  have hb : (litN p == 0) = false := by simpa using hN
+  simp only [hb, Bool.false_eq_true, if_false]
+  by_cases hh : litE p + ((toString (litN p)).length : Int) > 400
+  · left
+    rw [if_pos hh]
+    exact ⟨rfl, huge_overflows h (litN p) _ (litE p) db1 hLpos hh⟩
+  · rw [if_neg hh]
+    by_cases ht : litE p + ((toString (litN p)).length : Int) < -400
+    · right; left
+      rw [if_pos ht]
+      exact ⟨rfl, tiny_underflows h (litN p) _ (litE p) db2 ht⟩
+    · right; right
+      rw [if_neg ht]
+      by_cases hE : litE p ≥ 0
+      · rw [if_pos hE]
+        refine ⟨_, _, rfl, Nat.one_pos, ?_⟩
+        have e2 : dDen (litE p) = 1 := by
+          unfold dDen
+          have : (-(litE p)).toNat = 0 := by omega
+          rw [this]; rfl
+        rw [e2]; rfl
+      · rw [if_neg hE]
+        refine ⟨_, _, rfl, Nat.pos_of_ne_zero (by simp), ?_⟩
+        have e1 : dNum F (litN p) (litE p) = litN p * 2 ^ F.qexp := by
+          unfold dNum
+          have : (litE p).toNat = 0 := by omega
+          rw [this, Nat.pow_zero, Nat.mul_one]
+        rw [e1]; rfl
+
+theorem signBit64_toF64 (neg : Bool) :
+    SJ.Spec.Ieee.signBit neg = F32.toF64 (UInt32.ofNat (if neg then b32.signBit + 0 else 0)) := by
+  cases neg <;> decide
+
+theorem roundNE32_eq (neg : Bool) (n d : Nat) : roundNE32 neg n d = (roundBits b32 neg n d).map UInt32.ofNat := rfl
+
+
 end SJ.Proofs.LexCorrect
